@@ -197,8 +197,9 @@ Definition show_ev (e : ev) : tok :=
 
 Definition fo_step (fo : follower) (op : Z) (args : list tok) : follower * list tok :=
   match op, args with
-  | 0, [TN a; TN k; TN c; TN b] => (mkfo [] 0 k c b (negb (a =? 0)), [TN 0])
-  | 1, [TB s; TB d; TN sp; TN dp; TN fl; TN q; TN a; dat; TN ts] =>
+  | 0, [TN a; TN k; TN c; TN b] | 0, [TN a; TN k; TN c; TN b; TN _] =>      (* optional: ACK tracking on (its bookkeeping is C19's subject; here it must not change any report) *)
+      (mkfo [] 0 k c b (negb (a =? 0)), [TN 0])
+  | 1, [TB s; TB d; TN sp; TN dp; TN fl; TN q; TN a; dat; TN ts] | 1, [TB s; TB d; TN sp; TN dp; TN fl; TN q; TN a; dat; TN ts; TL _] =>      (* optional: SACK edges *)
       let v6 := zlen s =? 16 in
       let p := mkpkt v6 (be s 0) (be d 0) sp dp fl q a (match dat with TB x => Some x | _ => None end) ts in
       match process_packet fo p with
